@@ -215,6 +215,9 @@ func ParseSliceHeader(nalu []byte, spsMap map[uint32]*SPS, ppsMap map[uint32]*PP
 					sh.NumLongTermSps = uint8(r.ReadExpGolomb())
 				}
 				sh.NumLongTermPics = r.ReadExpGolomb()
+				if sh.NumLongTermPics > 32 { // At most 32 long-term pictures (7.4.7.1)
+					return sh, fmt.Errorf("num_long_term_pics %d too big", sh.NumLongTermPics)
+				}
 				for i := uint(0); i < uint(sh.NumLongTermSps)+sh.NumLongTermPics; i++ {
 					var lt LongTermRPS
 					if i < uint(sh.NumLongTermSps) {
@@ -258,9 +261,16 @@ func ParseSliceHeader(nalu []byte, spsMap map[uint32]*SPS, ppsMap map[uint32]*PP
 			// 0 specifies that the syntax elements num_ref_idx_l0_active_minus1 and num_ref_idx_l1_active_minus1 are not present.
 			if sh.NumRefIdxActiveOverrideFlag {
 				// value shall be in the range of 0 to 14, inclusive
-				sh.NumRefIdxL0ActiveMinus1 = uint8(r.ReadExpGolomb())
+				numRefIdxL0, numRefIdxL1 := r.ReadExpGolomb(), uint(0)
 				if sh.SliceType == SLICE_B {
-					sh.NumRefIdxL1ActiveMinus1 = uint8(r.ReadExpGolomb())
+					numRefIdxL1 = r.ReadExpGolomb()
+				}
+				if numRefIdxL0 > 14 || numRefIdxL1 > 14 {
+					return sh, fmt.Errorf("num_ref_idx_active_minus1 %d/%d too big", numRefIdxL0, numRefIdxL1)
+				}
+				sh.NumRefIdxL0ActiveMinus1 = uint8(numRefIdxL0)
+				if sh.SliceType == SLICE_B {
+					sh.NumRefIdxL1ActiveMinus1 = uint8(numRefIdxL1)
 				}
 			}
 
@@ -342,6 +352,9 @@ func ParseSliceHeader(nalu []byte, spsMap map[uint32]*SPS, ppsMap map[uint32]*PP
 	}
 	if pps.TilesEnabledFlag || pps.EntropyCodingSyncEnabledFlag {
 		sh.NumEntryPointOffsets = r.ReadExpGolomb()
+		if sh.NumEntryPointOffsets > 440*440 { // Bounded by the number of CTB rows x tile columns (7.4.7.1)
+			return sh, fmt.Errorf("num_entry_point_offsets %d too big", sh.NumEntryPointOffsets)
+		}
 		if sh.NumEntryPointOffsets > 0 {
 			// value shall be in the range of 0 to 31, inclusive
 			sh.OffsetLenMinus1 = uint8(r.ReadExpGolomb())
